@@ -35,8 +35,8 @@ ASSUMPTIONS = ["failed realizations are passed to filters as all-NaN rows (what 
                "a percentile within 1e-12 of k/n may give k or ceil(p*n) non-zero weights; negative weights are never accepted"]
 EXHAUSTIVE = {"quick": False, "thorough": False}
 BOUNDS = {"quick": {"exhaustive_n": 5, "sampled_n_max": 30}, "thorough": {"exhaustive_n": 7, "sampled_n_max": 60}}
-REQUIRED = {"quick": {"cvar.calls": 20000, "cvar.e2e": 200, "cvar.with_zero_configured_weight": 700, "cvar.e2e_with_unreferenced_filters_in_front": 100, "cvar.e2e_after_another_constraint_filter": 60, "cvar.e2e_later_evaluation_of_same_evaluator": 200, "cvar.no_success": 10, "__nontrivial__": 100},
-            "thorough": {"cvar.calls": 1000000, "cvar.e2e": 2000, "cvar.with_zero_configured_weight": 7000, "cvar.e2e_with_unreferenced_filters_in_front": 1000, "cvar.e2e_after_another_constraint_filter": 600, "cvar.e2e_later_evaluation_of_same_evaluator": 2000, "cvar.no_success": 50, "__nontrivial__": 1000}}
+REQUIRED = {"quick": {"cvar.calls": 20000, "cvar.e2e": 200, "cvar.with_an_infinite_value_in_an_unranked_function": 7000, "cvar.e2e_with_an_infinite_value_in_an_unranked_function": 60, "cvar.with_zero_configured_weight": 700, "cvar.e2e_with_unreferenced_filters_in_front": 100, "cvar.e2e_after_another_constraint_filter": 60, "cvar.e2e_later_evaluation_of_same_evaluator": 200, "cvar.no_success": 10, "__nontrivial__": 100},
+            "thorough": {"cvar.calls": 1000000, "cvar.e2e": 2000, "cvar.with_an_infinite_value_in_an_unranked_function": 70000, "cvar.e2e_with_an_infinite_value_in_an_unranked_function": 600, "cvar.with_zero_configured_weight": 7000, "cvar.e2e_with_unreferenced_filters_in_front": 1000, "cvar.e2e_after_another_constraint_filter": 600, "cvar.e2e_later_evaluation_of_same_evaluator": 2000, "cvar.no_success": 50, "__nontrivial__": 1000}}
 
 FLAVOURS = [("objective", None), ("constraint", "upper"), ("constraint", "lower"), ("constraint", "eq"),
             ("constraint", "two"), ("objective2", None), ("objective_neg", None)]
@@ -147,23 +147,34 @@ def _badness(flavour, kind, meta, values):
     return None
 
 
-def _call(flt, flavour, meta, ranked, failed, rng):
+def _unranked(rng, n, failed, obs=None):
+    """Values of a function the filter does not rank: whatever they are (infinite included), they do not matter to it."""
+    col = rng.normal(size=n) * 100
+    succ = np.flatnonzero(~np.asarray(failed, dtype=bool))
+    if succ.size and rng.random() < 0.25:
+        col[succ[int(rng.integers(succ.size))]] = rng.choice([np.inf, -np.inf])
+        if obs is not None:
+            obs.count("cvar.with_an_infinite_value_in_an_unranked_function")
+    return col
+
+
+def _call(flt, flavour, meta, ranked, failed, rng, obs=None):
     n = len(failed)
     if flavour == "objective":
         obj = ranked.reshape(n, 1).copy()
         con = None
     elif flavour == "objective_neg":
-        obj = np.stack([rng.normal(size=n) * 100, ranked], axis=1)
+        obj = np.stack([_unranked(rng, n, failed, obs), ranked], axis=1)
         con = None
     elif flavour == "objective2":
         obj = np.empty((n, 3))
         obj[:, [0, 2]] = ranked
-        obj[:, 1] = rng.normal(size=n) * 100
+        obj[:, 1] = _unranked(rng, n, failed, obs)
         con = None
     else:
         obj = rng.normal(size=(n, 1))
         con = np.empty((n, 2))
-        con[:, 0] = rng.normal(size=n) * 100
+        con[:, 0] = _unranked(rng, n, failed, obs)
         con[:, 1] = ranked
         con[failed, :] = np.nan
     obj[failed, :] = np.nan
@@ -188,7 +199,7 @@ def _one(obs, flt, flavour, kind, meta, ranked, failed, percentile, rng):
             return
         obs.violation("no_success_returned_weights", w=w)
         return
-    w = _call(flt, flavour, meta, ranked, failed, rng)
+    w = _call(flt, flavour, meta, ranked, failed, rng, obs)
     bad = _badness(flavour, kind, meta, ranked)
     for k, d in models.check_cvar_weights(w, bad, failed, percentile):
         obs.violation(k, flavour=flavour, kind=kind, percentile=percentile, failed=failed, ranked=ranked, w=w, **d)
@@ -298,6 +309,10 @@ def _e2e(case, obs):
     def draw():
         st["ranked"] = np.round(rng.normal(size=n), 1) if rng.random() < 0.3 else rng.normal(size=n)
         st["other"] = rng.normal(size=n) * 10
+        if first is None and rng.random() < 0.25:
+            # an infinite value in a function the judged filter does not rank
+            st["other"][int(rng.integers(n))] = rng.choice([np.inf, -np.inf])
+            obs.count("cvar.e2e_with_an_infinite_value_in_an_unranked_function")
 
     draw()
 
